@@ -74,11 +74,53 @@ def lemmas(idx):
     notes['covered_functions'] = len(cover); notes['distinct_statements'] = n; notes['untranslated_count'] = len(notes['untranslated'])
     return files, notes, cover
 
+def componentwise(idx):
+    """structural lemmas (all Ops): Add / Sub / Mul<scalar> / Div<scalar> / Neg of the quaternion types are the lane-wise primitive - one correctly
+    rounded operation per component, exactly like the Vec4 operators (the algebraic lemmas cannot tell x / s from x * (1 / s))"""
+    out = []; seen = set(); k_ = 0
+    for cfg in CFGS:
+        structs = idx.structs(cfg)
+        for f in idx.fns(cfg):
+            st = f['self']; tn = tname(st) if st is not None else None
+            if tn not in ('Quat', 'DQuat') or f['generic'] or f['by_ref'] or not f['trait'] or f['fid'] is None: continue
+            tr = f['trait'][0]; k = 'f32' if tn == 'Quat' else 'f64'; ps = f['params']
+            prim = {'Add': 'FAdd', 'Sub': 'FSub', 'Mul': 'FMul', 'Div': 'FDiv', 'Neg': None}.get(tr)
+            if tr not in ('Add', 'Sub', 'Mul', 'Div', 'Neg') or not f['has_self']: continue
+            try:
+                vs = []; a = sym(structs, st, 'a', vs); A = [l[2] for l in tree_leaves(a)]; rt = sym(structs, st, 'r', [])
+                if tr == 'Neg' and not ps:
+                    args = [tree_coq(a)]; lanes = ['(%s_2 O FMul %s (%s_of_bits O %d))' % (k, x, k, 3212836864 if k == 'f32' else 13830554455654793216) for x in A]; sname = 'neg = lane * -1.0'
+                elif len(ps) == 1 and tname(ps[0][1]) == tn and tr in ('Add', 'Sub'):
+                    b = sym(structs, st, 'b', vs); Bv = [l[2] for l in tree_leaves(b)]; args = [tree_coq(a), tree_coq(b)]; lanes = ['(%s_2 O %s %s %s)' % (k, prim, x, y) for x, y in zip(A, Bv)]; sname = 'lane-wise ' + tr
+                elif len(ps) == 1 and ps[0][1] == k and tr in ('Mul', 'Div'):
+                    b = sym(structs, k, 'b', vs); args = [tree_coq(a), tree_coq(b)]; lanes = ['(%s_2 O %s %s %s)' % (k, prim, x, b[2]) for x in A]; sname = 'lane-wise %s by the scalar' % tr
+                else: continue
+                stmt = ('run O tbl 200 %d%%positive [%s]' % (f['fid'], '; '.join(args)), 'Ok (%s)' % tree_fill(rt, iter(lanes)))
+                if stmt in seen: continue
+                seen.add(stmt); k_ += 1
+                out.append(core.Lemma('qcw_%d' % k_, vs, stmt[0], stmt[1], meta={'cfg': cfg, 'key': f['key'], 'file': f['file'], 'fid': f['fid'], 'did': f['did'], 'covers': ['%s:%s' % (cfg, f['key'])], 'spec': sname}))
+            except SymErr: continue
+    return out
+
 def run(tier, seed):
     t0 = time.time(); idx, info = flow.prepare()
     files, notes, cover = lemmas(idx)
+    cw = componentwise(idx); core.LEMMA_TIMEOUT[0] = 60
+    nobc, ndc, cfail, _ = core.prove_files(core.BUILD + '/props/C04_cw', {'Qcw_000': cw}, hdr=core.HDR, footer='') if cw else (0, 0, [], {})
+    notes['componentwise_structural_lemmas'] = {'stated': nobc, 'proved': ndc}
+    cextra = []
+    for l, err in cfail:
+        cx = None
+        try: cx, _ = flow.search_counterexample(idx, l, seed)
+        except Exception: pass
+        obj = {'kind': 'counterexample' if cx else 'unproved', 'theorem': l.name, 'statement': l.statement()[:1500], 'meta': l.meta, 'coq_error': err[-400:], 'how_found': 'component-wise quaternion operators must be the lane-wise primitive'}
+        if cx:
+            obj.update(cx)
+            try: obj.update(flow.confirm_on_crate(idx, l, cx))
+            except Exception: pass
+        cextra.append((obj, cx is not None))
     per_fn = 8 if tier == 'quick' else 80
     return f1.run('C04', tier, seed, idx, info, t0, files, notes, cover, alg.BOILER, per_fn,
         'one algebraic lemma per quaternion operation (Hamilton product, conjugate/inverse, rotation of Vec3 and Vec3A, component-wise operations, dot, length_squared) of Quat and DQuat in the sse2, scalar-math and core-simd tables over an arbitrary field; rotation laws derived from the reference formulas in coq/theories/QuatAlg.v; correspondence: %d random calls per function incl. small-integer quaternions' % per_fn,
         ['reference formulas (Hamilton product, q v conj q) in harness/props/C04.py and coq/theories/QuatAlg.v', 'field axioms only: no floating-point rounding in these statements'],
-        ['rounding-error bounds (a few epsilon times |v|) are not proved in this round'], footer=alg.FOOTER)
+        ['rounding-error bounds (a few epsilon times |v|) are not proved in this round'], footer=alg.FOOTER, extra={'extra_violations': cextra})
